@@ -312,8 +312,10 @@ PROGRAM_SETS = {
         [["encrypt"], ["encrypt"]],
         [["encrypt", "header_md"], ["encrypt"]],
         [["decaps_empty", "encaps"], ["encaps", "encrypt"]],
+        [["encrypt_big"], ["encaps", "header_md"]],
     ],
     "thorough": [
+        [["encrypt_big", "encaps"], ["header_md", "encrypt_big"]],
         [["decaps_empty", "encaps"], ["encaps", "encrypt"]],
         [["decaps_empty"], ["header_md"], ["decaps"]],
         [["encrypt", "encaps"], ["header_md", "keygen"]],
